@@ -162,6 +162,7 @@ pub fn generate(prop: &str, tier: &str, seed: u64, rec: &mut Rec) {
             gen_writes(rec, &mut rng, 900 * scale, true);
             gen_writes_exhaustive(rec, if thorough { 5 } else { 4 });
         }
+        "C04" => gen_alloc(rec, &mut rng, 40 * scale),
         "C05" => gen_logs(rec, &mut rng, 300 * scale, thorough),
         "C06" => gen_boxes(rec, &mut rng, scale),
         "C09" => gen_typed(rec, &mut rng, 1200 * scale),
@@ -1884,6 +1885,43 @@ fn gen_invocations(rec: &mut Rec, rng: &mut Rng, cases: u64) {
                 last_answers.get(idx).cloned().unwrap_or_default(),
                 answers.get(idx).cloned().unwrap_or_default()
             ));
+        }
+    }
+}
+
+// ---------------------------------------------------------------------------------- allocator
+
+/// the provider's exported allocator as the property-name glue uses it: requests of every small size and
+/// around powers of two, interleaved with reads of an input (so that live allocations, the input and the
+/// reader's arena coexist)
+fn gen_alloc(rec: &mut Rec, rng: &mut Rng, cases: u64) {
+    rec.case("c04alloc");
+    rec.op(&format!("init {}", hex0(&gen_doc(rng, false))));
+    for n in 0..=40usize {
+        rec.op(&format!("palloc {}", n));
+    }
+    for i in 0..cases {
+        rec.case("c04alloc");
+        rec.bump("alloc:history");
+        rec.op(&format!("init {}", hex0(&gen_doc(rng, false))));
+        rec.op("root");
+        for _ in 0..rng.range(3, 30) {
+            let n = match rng.below(8) {
+                0 => 0,
+                1 => 1,
+                2 => rng.range(2, 16) as usize,
+                3 => *rng.pick(&[255usize, 256, 257, 1023, 1024, 1025, 4096, 65535, 65536, 65537]),
+                4 => (1usize << rng.range(1, 20)) + rng.below(3) as usize - 1,
+                _ => rng.range(1, 300) as usize,
+            };
+            rec.op(&format!("palloc {}", n));
+            if rng.chance(1, 4) {
+                rec.op(&format!("prop h0 {}", hex0(&mp::gen_key(rng))));
+            }
+            if rng.chance(1, 10) && i % 2 == 0 {
+                rec.op(&format!("init {}", hex0(&gen_doc(rng, false))));
+                rec.op("root");
+            }
         }
     }
 }
